@@ -1,3 +1,4 @@
-From Gatery Require Import Bits FrontendDefs.
+From Gatery Require Import Bits FrontendDefs FrontendDefaultDefs.
 Require Extraction. Require Import ExtrOcamlBasic.
-Extraction "c05_model.ml" run_prog elab_prog eval_all sig_values getv guard_true mk_if block_of.
+Extraction "c05_model.ml" run_prog elab_prog eval_all sig_values getv guard_true mk_if block_of
+  fin_prog resolve_all resolved_rho all_loopy.
